@@ -347,7 +347,7 @@ def configs(tier):
         cf.append(dict(mode="nearest", seed=seed, rc=True, n_score_bins=6, n_nearest=2))
     cf.append(dict(mode="nearest_sym", seed=0, rc=False, n_score_bins=6, n_targets=3, n_nearest=2))
     cf.append(dict(mode="annotate", seed=1, rc=False, n_score_bins=5, n_nearest=2))
-    cf.append(dict(mode="many", seed=2, rc=False, n_score_bins=4, n_queries=66, probe=[64, 65]))
+    cf.append(dict(mode="many", seed=2, rc=False, n_score_bins=4, n_queries=90, probe=[64, 65, 88, 89]))      # > 127 query columns in one call
     if not q:
         cf.append(dict(mode="nearest_sym", seed=0, rc=False, n_score_bins=6, n_targets=4, n_nearest=3))
         cf.append(dict(mode="annotate", seed=3, rc=True, n_score_bins=5, n_nearest=1))
